@@ -130,8 +130,8 @@ extern "C" void sym_body()
     SYM_CHECK(!thrown, "finite evaluations: no exception");
     if (thrown) return;
     SYM_CHECK(static_cast<long>(steps.size()) == points, "all evaluations are returned");
-    for (size_t i = 0; i + 1 < steps.size(); ++i) SYM_LE_(steps[i].m_value, steps[i + 1].m_value, "returned steps are sorted by value");
-    for (const auto v : all_values) SYM_LE_(steps[0].m_value, v, "first step is the minimum of all observed values");
+    for (size_t i = 0; i + 1 < steps.size(); ++i) SYM_LE_X(steps[i].m_value, steps[i + 1].m_value, "returned steps are sorted by value");
+    for (const auto v : all_values) SYM_LE_X(steps[0].m_value, v, "first step is the minimum of all observed values");
     for (const auto& s : steps)
     {
         std::vector<long> idx;
